@@ -11,6 +11,7 @@ import (
 	"path/filepath"
 	"sort"
 	"strconv"
+	"strings"
 	"sync"
 	"testing"
 	"time"
@@ -221,6 +222,19 @@ func Excluded(fingerprint string) {
 	out.Excluded[fingerprint]++
 }
 
+type alias struct{ suffix, canonical string }
+
+var aliases []alias
+
+// Alias declares that a fingerprint ending in suffix (whatever check composed it) denotes the
+// finding whose fingerprint is canonical: one root cause observed through another property's
+// check keeps the fingerprint it is recorded under.
+func Alias(suffix, canonical string) {
+	mu.Lock()
+	defer mu.Unlock()
+	aliases = append(aliases, alias{suffix, canonical})
+}
+
 // Violation reports an oracle failure. If the fingerprint is a listed known finding it is
 // counted and true is returned (the caller continues); otherwise the case dump is written to
 // the replay directory and the test fails.
@@ -228,6 +242,11 @@ func Violation(t TB, partName, fingerprint, msg string, dump any) bool {
 	t.Helper()
 	doInit()
 	mu.Lock()
+	for _, a := range aliases {
+		if strings.HasSuffix(fingerprint, a.suffix) || strings.Contains(fingerprint, a.suffix+"/") {
+			fingerprint = a.canonical
+		}
+	}
 	if _, ok := known[fingerprint]; ok {
 		out.KnownHits[fingerprint]++
 		mu.Unlock()
